@@ -82,9 +82,13 @@ PLANS["C20"] = {
                   # closed bursts: persistent workers released together, one or two calls each per round
                   ["--histories", 2, "--bursts", 150000, "--threads", 6, "--locks", 1, "--per-round", 1],
                   ["--histories", 1, "--bursts", 60000, "--threads", 12, "--locks", 2, "--per-round", 2],
-                  ["--histories", 1, "--bursts", 100000, "--threads", 3, "--locks", 1, "--per-round", 1]]},
+                  ["--histories", 1, "--bursts", 100000, "--threads", 3, "--locks", 1, "--per-round", 1],
+                  # a closure panics inside apply; afterwards every call must still return or unwind (no hang)
+                  ["--histories", 200, "--threads", 6, "--locks", 1, "--ops", 20, "--poison"]]},
         {"name": "lock-miri", "kind": "lock_miri", "shards": 4, "seeds_per_shard": 2, "timeout": 900,
          "args": ["--histories", 1, "--threads", 3, "--locks", 1, "--ops", 6]},
+        {"name": "lock-miri-poison", "kind": "lock_miri", "shards": 2, "seeds_per_shard": 1, "timeout": 900,
+         "args": ["--histories", 1, "--threads", 3, "--locks", 1, "--ops", 4, "--poison"]},
     ],
     "thorough": [
         {"name": "lock-native", "kind": "lock_native", "profile": "release", "timeout": 3000,
@@ -95,9 +99,13 @@ PLANS["C20"] = {
                   ["--histories", 12, "--bursts", 400000, "--threads", 6, "--locks", 1, "--per-round", 1],
                   ["--histories", 6, "--bursts", 200000, "--threads", 12, "--locks", 2, "--per-round", 2],
                   ["--histories", 6, "--bursts", 400000, "--threads", 3, "--locks", 1, "--per-round", 1],
-                  ["--histories", 4, "--bursts", 200000, "--threads", 16, "--locks", 4, "--per-round", 3]]},
+                  ["--histories", 4, "--bursts", 200000, "--threads", 16, "--locks", 4, "--per-round", 3],
+                  ["--histories", 5000, "--threads", 6, "--locks", 1, "--ops", 20, "--poison"],
+                  ["--histories", 500, "--threads", 16, "--locks", 1, "--ops", 50, "--poison"]]},
         {"name": "lock-miri", "kind": "lock_miri", "shards": 16, "seeds_per_shard": 4, "timeout": 3000,
          "args": ["--histories", 1, "--threads", 3, "--locks", 2, "--ops", 6]},
+        {"name": "lock-miri-poison", "kind": "lock_miri", "shards": 8, "seeds_per_shard": 2, "timeout": 3000,
+         "args": ["--histories", 1, "--threads", 3, "--locks", 1, "--ops", 4, "--poison"]},
         {"name": "lock-tsan", "kind": "lock_tsan", "timeout": 3000,
          "runs": [["--histories", 2000, "--threads", 8, "--locks", 3, "--ops", 30, "--vary"],
                   ["--histories", 1, "--threads", 16, "--locks", 1, "--ops", 20000]]},
